@@ -177,6 +177,17 @@ def r3(ck, rule="C16-R3"):
         ck.require(ok, rule, "disk consulted only for names not in the map (choose_filename_to_patch)",
                    "the disk probe is not dominated by the None edge of the in-memory lookup: a file created or deleted earlier in the run "
                    "would be resolved from stale disk state", ch.where(t))
+    # for a name that IS in the map, existence is its `deleted` flag and nothing else: an empty file exists (a file whose content a
+    # rename took away is marked deleted by move_out).  An accessor such as is_vacant() is inlined by inline.py, so what it reads
+    # shows up here.
+    MF = "libpatch::modified_file::ModifiedFile"
+    some_regions = [cfg.dominated_by_edge(ch, sw["edges"]["Some"]) for sw in sws if sw["edges"].get("Some")]
+    if ck.require(bool(some_regions), rule, "choose_filename_to_patch branches on the in-memory record", "no Some edge of the in-memory lookup", ch.where()):
+        used = sorted({nm for reg in some_regions for bb, nm in df.adt_field_uses(ch, MF, reg)})
+        ck.require(used == ["deleted"], rule, "for a name tracked in memory, existence is its `deleted` flag alone",
+                   "on the path where the old name is in the map, choose_filename_to_patch reads %s of the record: e.g. an existing but empty "
+                   "file would be taken for absent and the patch would go to the new name, while a later invocation (which finds the file on "
+                   "disk) picks the old name" % used, ch.where(), ok_detail="reads only .deleted")
     lf = [(bb, t) for bb, t in gol.calls() if (callee_of(t).get("path") or "").endswith("Arena::load_file")]
     ck.floor(rule, "load_file calls in get_or_load", len(lf), 1)
     sws = pt.discr_switches(gol, lambda e, rv: (rv.get("adt") or "").endswith("hash::map::Entry"))
